@@ -78,6 +78,19 @@ Fixpoint alookup_nat {A} (k : nat) (l : list (nat * A)) : option A :=
   | (k', v) :: r => if Nat.eqb k k' then Some v else alookup_nat k r
   end.
 
+(* position of [id]'s entry in the line map / position of the last range that contains [line]:
+   the map and the pre-order list of block ranges run in step (one entry per block that has a
+   range, blocks inside quotes included since the builder keeps the nested builder's entries),
+   so the innermost block covering a line is the last range of the pre-order list that contains it *)
+Fixpoint index_of_id (id : nat) (m : list (nat * lrange)) : option nat :=
+  match m with
+  | [] => None
+  | (k, _) :: r => if Nat.eqb id k then Some 0 else option_map S (index_of_id id r)
+  end.
+Definition last_containing (rs : list lrange) (line : nat) : option nat :=
+  fold_left (fun acc ir => if lrange_contains (snd ir) line then Some (fst ir) else acc)
+            (combine (seq 0 (length rs)) rs) None.
+
 (* ---------- the oracle side: links and ranges from pulldown's events ------------------- *)
 
 (* links in event order with their byte range (in paragraphs, headings, items, quotes and
@@ -310,7 +323,11 @@ Definition run (c : case) : verdict :=
                 forallb2 (fun line o =>
                             match o with
                             | Some id => match alookup_nat id m with
-                                         | Some lr => lrange_contains lr line && existsb (lrange_eqb lr) rs
+                                         | Some lr => lrange_contains lr line && existsb (lrange_eqb lr) rs &&
+                                                      (* .. and the innermost one: the last block of the
+                                                         pre-order that covers the line (the paragraph
+                                                         inside a quote, not the quote) *)
+                                                      option_eqb Nat.eqb (index_of_id id m) (last_containing rs line)
                                          | None => false
                                          end
                             | None => negb (existsb (fun lr => lrange_contains lr line) rs)
